@@ -3,6 +3,7 @@
   Property theorems only; helper lemmas live in SV.ShardProofs.
 -/
 import SV.ShardProofs
+import SV.Persist.Proofs
 namespace SV.Props.C19
 open SV SV.Shard
 
@@ -26,6 +27,19 @@ theorem id_onto (n i : Nat) (hv : validCount n = true) (hi : i < n) : ∃ key : 
 theorem mask_segments_sound (a b : Nat) (ha : 2 ≤ a) (hb : b - a < 2 ^ 64) :
     ∀ s ∈ mergeSegs (segs 64 a b), ∀ n, s.1 ≤ n → n ≤ s.2.1 → triple n = s.2.2 :=
   fun s hs => mergeSegs_sound _ (segs_sound 64 a b ha hb) s hs
+
+/-- a sharded persister routes every operation on a key to one and the same underlying persister and therefore behaves
+    as a single map (reads after Put / Remove), for every shard count ≥ 2 and every batch size -/
+theorem sharded_put_then_read (s : Persist.Sharded) (k k' : Bytes) (v : Persist.Val) (h : Persist.SInv s) :
+    (s.put k v).get Persist.Variant.current k' = if k' = k then some v.bytes else s.get Persist.Variant.current k' :=
+  Persist.sharded_get_put s k k' v h
+theorem sharded_remove_then_read (s : Persist.Sharded) (k k' : Bytes) (h : Persist.SInv s) :
+    (s.remove k).get Persist.Variant.current k' = if k' = k then none else s.get Persist.Variant.current k' :=
+  Persist.sharded_get_remove s k k' h
+theorem sharded_invariant (s : Persist.Sharded) (k : Bytes) (v : Persist.Val) (h : Persist.SInv s) : Persist.SInv (s.put k v) :=
+  Persist.SInv.put s k v h
+/-- RangeKeys of the sharded persister is the union (concatenation) of the shards' ranges, by definition -/
+theorem sharded_range_is_union (s : Persist.Sharded) : s.range = s.shards.flatMap Persist.P.range := rfl
 
 -- non-vacuity: concrete instances
 example : computeId 5 [0xff, 0xff, 0x07] = 3 := by decide
